@@ -32,22 +32,27 @@
 (*   run  : EZSP is running (start_ezsp / stop_ezsp)                       *)
 (*   open : EZSP still has its gateway (not closed)                        *)
 (*   reg  : an application callback is registered                          *)
-(*   lay  : framing in use: "legacy" until negotiated, then "native"       *)
+(*   hv   : protocol version of the active protocol handler (4 after     *)
+(*          every reset, the NCP's version once negotiated)               *)
+(*   lay  : header layout in use = Layout(hv) (EzspCodec)                  *)
+(*   v1,v2: ids of EZSP.version() operations waiting for their first /     *)
+(*          confirming `version` query (the latter under id + 1000)        *)
 (*   req  : number of controller-reset requests handed to the application  *)
 (*   ek   : id of the EZSP.reset() call in progress (0 none)               *)
 (* External outputs: write / rst (bytes to the port), cdone (outcome of a  *)
 (* command call), cb (frame handed to the callbacks), request, edone       *)
 (* (outcome of EZSP.reset()), sdone (start-up-reset waiter).               *)
 (***************************************************************************)
-EXTENDS Gateway, EzspCmd
+EXTENDS Gateway, EzspCmd, EzspCodec
 
 SInit == [g |-> GInit, p |-> PInit, run |-> FALSE, open |-> TRUE, reg |-> FALSE,
-          lay |-> "legacy", req |-> 0, ek |-> 0]
+          hv |-> 4, lay |-> Layout(4), req |-> 0, ek |-> 0, v1 |-> {}, v2 |-> {}]
 SR(s, out) == [s |-> s, out |-> out]
 
 CDone(c, res, val) == [o |-> "cdone", c |-> c, res |-> res, val |-> val]
 Request == [o |-> "request"]
 EDone(k, res) == [o |-> "edone", k |-> k, res |-> res]
+VDone(c, res, val) == [o |-> "vdone", c |-> c, res |-> res, val |-> val]
 Sig(name) == [o |-> name]
 
 AllHang == [i \in 1 .. 8 |-> "hang"]     \* every link-level send is a real ASH send: pending until acknowledged
@@ -123,7 +128,19 @@ Pump(s, todo, out, now) ==
         [] x.o = "rst" -> Pump(s, rest, Append(out, x), now)
         [] x.o = "cb" -> Pump(s, rest, Append(out, x), now)
         [] x.o = "sdone" -> Pump(s, rest, Append(out, x), now)
-        [] x.o = "done" -> Pump(s, rest, Append(out, CDone(x.c, x.res, x.val)), now)
+        [] x.o = "done" ->
+             IF x.c \in s.v1                  \* EZSP.version(): the first query returned
+             THEN IF x.res = "ok" /\ x.val # s.hv
+                  THEN (* the NCP reports another version: a NEW protocol handler (own sequence numbers, registrations and  *)
+                       (* command slot) framing for that version, and the version is confirmed with a second query          *)
+                       LET s1 == [s EXCEPT !.p = PInit, !.hv = x.val, !.lay = Layout(x.val),
+                                           !.v1 = @ \ {x.c}, !.v2 = @ \cup {x.c + 1000}]
+                           r  == CallFn(s1.p, x.c + 1000, "version", AllHang, now)
+                       IN Pump([s1 EXCEPT !.p = r.p], rest \o FromP(r.out), out, now)
+                  ELSE Pump([s EXCEPT !.v1 = @ \ {x.c}], rest, Append(out, VDone(x.c, x.res, x.val)), now)
+             ELSE IF x.c \in s.v2
+             THEN Pump([s EXCEPT !.v2 = @ \ {x.c}], rest, Append(out, VDone(x.c - 1000, x.res, x.val)), now)
+             ELSE Pump(s, rest, Append(out, CDone(x.c, x.res, x.val)), now)
         [] x.o = "sent" ->        \* Gateway.send_data -> AshProtocol.send_data (eager task: runs to its first wait)
              LET r == SubmitFn(s.g.h, x.c, CmdPl(x.seq, x.cmd, s.lay))
              IN Pump([s EXCEPT !.g.h = r.h], rest \o FromH(r.out), Append(out, x), now)   \* "sent" is kept as a note
@@ -148,7 +165,7 @@ Pump(s, todo, out, now) ==
              LET r == LostFn(s.g, FALSE) IN Pump([s EXCEPT !.g = r.g], rest \o r.out, out, now)
         [] x.o = "rdone" ->       \* Gateway.reset() returned to EZSP.reset(): legacy framing again, EZSP started
              IF x.k = s.ek /\ s.ek # 0
-             THEN Pump(IF x.res = "ok" THEN [s EXCEPT !.ek = 0, !.lay = "legacy", !.run = TRUE]
+             THEN Pump(IF x.res = "ok" THEN [s EXCEPT !.ek = 0, !.p = PInit, !.hv = 4, !.lay = Layout(4), !.run = TRUE]
                                         ELSE [s EXCEPT !.ek = 0],
                        rest, Append(out, EDone(x.k, x.res)), now)
              ELSE Pump(s, rest, Append(out, x), now)
@@ -160,6 +177,12 @@ Pump(s, todo, out, now) ==
 SCall(s, c, cmd, now) ==
     IF ~s.run THEN SR(s, <<CDone(c, "notrunning", 0)>>)
     ELSE LET r == CallFn(s.p, c, cmd, AllHang, now) IN Pump([s EXCEPT !.p = r.p], FromP(r.out), <<>>, now)
+
+(* EZSP.version() by caller c: query in the current framing; the continuation is in Pump ("done") *)
+SVersion(s, c, now) ==
+    IF ~s.run THEN SR(s, <<VDone(c, "notrunning", 0)>>)
+    ELSE LET r == CallFn(s.p, c, "version", AllHang, now)
+         IN Pump([s EXCEPT !.p = r.p, !.v1 = @ \cup {c}], FromP(r.out), <<>>, now)
 
 (* the caller of call c is cancelled *)
 SCancel(s, c, now) ==
@@ -194,6 +217,6 @@ SClose(s, now) ==
 
 (* start_ezsp() / negotiated: bring-up bookkeeping driven by the layer above *)
 SStart(s) == [s EXCEPT !.run = TRUE]
-SNative(s) == [s EXCEPT !.lay = "native"]
+SNative(s, v) == [s EXCEPT !.p = PInit, !.hv = v, !.lay = Layout(v)]      \* _switch_protocol_version(v) done directly
 SRegister(s) == [s EXCEPT !.reg = TRUE]
 =============================================================================
